@@ -249,7 +249,21 @@ def run_case(ctx, case):
                 # the IR is instantiated (template arguments filled in - there are none here) before it is assembled
                 ctx.count("ir_instantiated_before_assembling")
                 proto.instantiate(app_id=0, arguments={})
+            kept = list(proto.commands)          # the caller's own command objects
             sub = assemble_subroutine(proto)
+            if has_label and (h // 5) % 2 == 0:
+                # the caller reuses its command objects in a SECOND, longer program (two statements in front): assembling the first
+                # one must have left them as they were - every label of the second program resolves in the second program
+                from netqasm.lang.ir import ProtoSubroutine
+                extra = [{"m": "set", "ops": [["C", 14], 7]}, {"m": "set", "ops": [["C", 13], 8]}]
+                front = list(gs.render_ir(extra, kinds_of).commands)
+                ctx.count("ir_commands_reused_in_a_second_program")
+                sub2 = assemble_subroutine(ProtoSubroutine(commands=front + kept, app_id=0))
+                err2, _ = align(extra + items, [codec.describe_instr(i) for i in sub2.instructions])
+                if err2:
+                    ctx.fail(case, f"[ir] the program's command objects reused in a second program (two statements in front), assembled "
+                                   f"after the first: {err2}")
+                    return ctx.case(case, has_lit and has_label)
     except RuntimeError as e:
         nR = len({r for r in named_registers(items) if r[0] == "R"})
         if "no registers left" in str(e) and nR + max_lits(items) > 16:
